@@ -219,6 +219,10 @@ func ResetEnv() {
 // here on a write to it outside a held mutex is a violation (symbolic runs).
 func Freeze(name string, root any) {}
 
+// FreezeGlobals marks the package-level state of goflow and gocommon (and
+// everything reachable from it) as shared and immutable, like Freeze.
+func FreezeGlobals() {}
+
 // Guard marks everything reachable from root as lock-guarded: reads and
 // writes outside a held mutex are violations (symbolic runs).
 func Guard(name string, root any) {}
